@@ -18,7 +18,10 @@ PROP = "C11"
 
 LIB = ('{ a: 1, bad: error "bad lib", f(x):: x * 2, '
        'deep: std.foldl(function(a, i) [a], std.range(1, 40), 0), '
-       'lazyobj: { p: $.a + 1, q: error "q" }, chain: std.foldl(function(a, i) a + 1, std.range(1, 30), 0) }')
+       'lazyobj: { p: $.a + 1, q: error "q" }, chain: std.foldl(function(a, i) a + 1, std.range(1, 30), 0), '
+       'e_type: 1 - "a", e_field: {}.nope, e_index: [1][5], e_div: 1 / 0, e_arg: std.length(1), '
+       'e_call: (function(x) x)(), badmap: std.map(function(x, y) x, [10, 20]), okmap: std.map(function(x) x + 1, [10, 20]), '
+       'e_import: import "missing.libsonnet", e_assertobj: { assert false : "ao", a: 1 }.a, e_flat: std.flatMap(function(x, y) [x], [1]) }')
 FILES = {"lib.libsonnet": '{ f(x):: x + 100, v: std.extVar("lib").a, bad: error "bad import", big: std.makeArray(50, function(i) i) }'}
 SOURCES = [
     'std.extVar("lib").a + 1',                                              # 0 uses shared ext var
@@ -34,7 +37,15 @@ SOURCES = [
     '(import "lib.libsonnet").bad',                                         # 10 fails inside the shared import
     'std.extVar("lib").lazyobj.p + std.extVar("lib").chain',                # 11 succeeds; shares thunks with 12
     'std.extVar("lib").lazyobj',                                            # 12 manifest fails in q after p was forced
+    '{ name: "svc", replicas: 1, assert self.replicas > 0 : "neg" }',         # 13 object with an assertion
+    '{ replicas: 0 }',                                                      # 14 overrides what the assertion reads
+    'function(a, b) a + b',                                                 # 15 called with the THUNKS of 13 and 14
+    'local l = std.extVar("lib"); [l.okmap, l.badmap]',                     # 16 fails while a mapped call is in progress
+    'std.extVar("lib").e_type', 'std.extVar("lib").e_field', 'std.extVar("lib").e_index',   # 17 18 19
+    'std.extVar("lib").e_div', 'std.extVar("lib").e_arg', 'std.extVar("lib").e_call',       # 20 21 22
+    'std.extVar("lib").e_import', 'std.extVar("lib").e_assertobj', 'std.extVar("lib").e_flat',  # 23 24 25
 ]
+CALLSRC_ARGS = {15: {"a": 13, "b": 14}}
 CALL_ARGS = {5: {"a": "10"}}
 
 
@@ -47,6 +58,8 @@ def concrete(r):
         return {"op": r[0], "src": r[1], "manifest": "multi"}
     if r[0] == "call":
         return {"op": "call", "src": r[1], "args": CALL_ARGS[r[1]], "manifest": "multi"}
+    if r[0] == "callsrc":
+        return {"op": "call", "src": r[1], "args_src": CALLSRC_ARGS[r[1]], "manifest": "multi"}
     if r[0] == "gc":
         return {"op": "gc"}
     if r[0] == "limit":
@@ -73,7 +86,7 @@ def hist_case(reqs):
 def cfg(maxlen, limits):
     path = os.path.join(vlib.workdir("tlc"), f"gen_hist_{maxlen}.cfg")
     with open(path, "w") as f:
-        f.write("CONSTANTS Sources = {%s} CallSources = {5} Limits = {%s} MaxLen = %d\n"
+        f.write("CONSTANTS Sources = {%s} CallSources = {5} CallSrcSources = {15} Limits = {%s} MaxLen = %d\n"
                 "INIT Init\nNEXT Next\nINVARIANT Emit\nCHECK_DEADLOCK FALSE\n"
                 % (", ".join(str(i) for i in range(len(SOURCES))), ", ".join(map(str, limits)), maxlen))
     return path
@@ -84,7 +97,7 @@ BIG = 100000
 
 def run(tier, seed):
     chk = Check(PROP, tier, seed)
-    chk.rule = ("every history of length k (quick 3, thorough 4: seeded sample of 150k) over 29 symbolic requests on 13 sources "
+    chk.rule = ("every history of length 2 and (quick: a seeded sample of) length 3, thorough also a sample of length 4, over 56 symbolic requests on 26 sources "
                 "sharing an external variable and an imported file; distinct = history; non-trivial = the history contains a "
                 "failing request or a limit change before its last request")
     chk.assumptions = ["the source pool is fixed in checks/c11.py (SOURCES, LIB, FILES)",
@@ -96,14 +109,16 @@ def run(tier, seed):
     tlc_must_pass(res, "Machine model (HistoryIndependent)")
     chk.add_tlc(res, "Machine exhaustive (HistoryIndependent, restored thunks)")
     limits = [12, 500]
-    maxlen = 3 if tier == "quick" else 4
-    res = run_tlc("MC_Hist", cfg(maxlen, limits), "c11_hist", workers=8, timeout=3000, coverage=False)
-    tlc_must_pass(res, "history enumeration")
-    chk.add_tlc(res, f"histories of length {maxlen}")
-    hists = list(res.lines("CASE"))
-    if tier == "thorough" and len(hists) > 150000:
-        r = vlib.rng(seed, "c11")
-        hists = r.sample(hists, 150000)
+    hists = []
+    rr = vlib.rng(seed, "c11")
+    for maxlen, cap in (((2, None), (3, 16000)) if tier == "quick" else ((2, None), (3, None), (4, 60000))):
+        res = run_tlc("MC_Hist", cfg(maxlen, limits), f"c11_hist{maxlen}", workers=8, timeout=3000, coverage=False)
+        tlc_must_pass(res, "history enumeration")
+        chk.add_tlc(res, f"histories of length {maxlen}")
+        hs = list(res.lines("CASE"))
+        if cap is not None and len(hs) > cap:
+            hs = rr.sample(hs, cap)
+        hists += hs
 
     # fresh baselines
     fresh_keys = sorted({(req_str(f), lim) for h in hists for f, lim in zip(h["fresh"], h["limits"])}
@@ -190,7 +205,7 @@ def run(tier, seed):
             raise vlib.ToolError("Trace_Hist accepts a history the Python evaluation rejects")
     chk.extra["histories"] = len(hists)
     chk.extra["histories_rejected"] = len(bad)
-    chk.exhaustive = (tier == "quick")
+    chk.exhaustive = False
     chk.sample({"history": hists[len(hists) // 2]["hist"], "limits": hists[len(hists) // 2]["limits"]})
     chk.sample({"fresh_outcomes": {f"{k[0]}@{k[1]}": v[:60] for k, v in list(base.items())[:8]}})
     return chk.finish()
